@@ -60,7 +60,7 @@ REGIONS = {
     20: 'typed-to-dict-cbortag',
 }
 # regions already observed on the pinned tree (reported to the coordinator; to be wired into known_findings.json)
-KNOWN_REGIONS = [v for k, v in REGIONS.items() if v]
+KNOWN_REGIONS = [v for k, v in REGIONS.items() if v and v != 'typed-datum-field-shape']
 
 
 # ================================================================ translator (Python ast -> Gallina)
@@ -322,12 +322,13 @@ def render(part):
     body = 'Definition cases : list (nat * ccase) :=\n' + C.clist(items).replace('); (', ');\n (') + '.\n'
     body += 'Eval vm_compute in (run_corr cases).\n'
     body += 'Eval vm_compute in (run_oracle cases).\n'
+    body += 'Eval vm_compute in (run_stats cases).\n'
     return body
 
 
-def evaluate(cases, results, shard=120):
-    """returns (mismatches {(idx, route)}, oracle failures {(idx, route, region)}, errors)"""
-    mism, ofail, errs = set(), set(), []
+def evaluate(cases, results, shard=75):
+    """returns (mismatches {(idx, route)}, oracle failures {(idx, route, region)}, errors, [observed routes, of which sound])"""
+    mism, ofail, errs, stats = set(), set(), [], [0, 0]
     good = []
     for i, (c, r) in enumerate(zip(cases, results)):
         if 'driver_error' in r:
@@ -340,15 +341,16 @@ def evaluate(cases, results, shard=120):
         shards.append(render([(c, r) for _, c, r in part]))
         maps.append([i for i, _, _ in part])
     for (ok, lists, log), mp in zip(C.run_cases(PID, shards, G.HEADER), maps):
-        if not ok or len(lists) != 2:
+        if not ok or len(lists) != 3:
             errs.append(log[-1500:])
             continue
-        a, b = lists
+        a, b, st = lists
+        stats[0] += st[0]; stats[1] += st[1]
         for j in range(0, len(a), 2):
             mism.add((mp[a[j]], a[j + 1]))
         for j in range(0, len(b), 3):
             ofail.add((mp[b[j]], b[j + 1], b[j + 2]))
-    return mism, ofail, errs
+    return mism, ofail, errs, stats
 
 
 def nontrivial(c):
@@ -364,10 +366,10 @@ def route_name(c, route):
 
 
 def correspond(ctx, n=None):
-    n = n or ctx.n(1500, 40000)
+    n = n or ctx.n(1200, 40000)
     cases = gen_cases(ctx, n)
     results = C.run_impl('plutus_driver', {'cases': cases})
-    mism, ofail, errs = evaluate(cases, results)
+    mism, ofail, errs, stats = evaluate(cases, results)
     if errs:
         raise RuntimeError('cases file failed to compile: ' + errs[0])
     kinds, regions, depth_hist = {}, {}, {}
@@ -399,6 +401,7 @@ def correspond(ctx, n=None):
         samples=[{k: v for k, v in cases[j].items() if k != 'json'} for j in (0, len(cases) // 2, len(cases) - 1)],
         kind_histogram=kinds, raw_depth_histogram=depth_hist, region_histogram=regions,
         known_region_hits=known_hits, known_regions=KNOWN_REGIONS,
+        routes_observed=stats[0], routes_in_sound_region=stats[1],
         compared='implementation bytes/JSON/exception kind of every route = model (exact) and = enc(plutus_ref d) / json_of d (oracle)',
         mismatches=[pack(i, r) for i, r in sorted(mism)[:20]],
         oracle_fail=[pack(i, r, name) for i, r, name in new_fail[:50]],
@@ -417,7 +420,7 @@ def search(ctx, mism):
 def replay(ctx, rep):
     case = finish_case({k: v for k, v in rep['case']['input'].items()})
     res = C.run_impl('plutus_driver', {'cases': [case]}, nshards=1)
-    mism, ofail, errs = evaluate([case], res)
+    mism, ofail, errs, _ = evaluate([case], res)
     print('input:', json.dumps({k: v for k, v in case.items() if k != 'json'}))
     print('implementation:', json.dumps(res[0]))
     print('reference bytes:', case.get('ref'))
